@@ -316,6 +316,11 @@ Definition project_window (f : fiber) (k b : Z) (iv : option (Z * Z)) (lo hi : o
   | None => None
   end.
 
+(* the same fiber object with other stored elements (after a reference traversal grew it) *)
+Definition set_es (f : fiber) (es : fib) : fiber :=
+  {| f_es := es; f_d := f_d f; f_shape := f_shape f; f_active := f_active f; f_isU := f_isU f;
+     f_owner := f_owner f |}.
+
 (* ---- prune (fiber.py:1026-1078): trans_fn(i, c, p) over enumerate(self.__iter__(start_pos)) *)
 Fixpoint prune_loop (P : Z -> Z -> tree -> bool) (i : Z) (ys : list yelem) : list yelem :=
   match ys with
